@@ -105,6 +105,11 @@ Definition meth1 (m : string) (r a : val) : outcome :=
   | "ok_or", VSome v, _ => Ret (VSome v)        (* Result with one error value = Option *)
   | "ok_or", VNone, _ => Ret VNone
   | "set_ptr", _, _ => Ret VUnit                 (* the store of the new finger: the value stored is the one returned *)
+  | "index", VRec fs, VN i =>                    (* s[i] on a slice (pointer, length): the place, as its address, in elements; out of range panics *)
+      match lookup "as_mut_ptr" fs, lookup "len" fs with
+      | Some (VN p), Some (VN n) => if i <? n then (if p + i <? W then Ret (VN (p + i)) else Ovf) else Panic
+      | _, _ => Stuck
+      end
   | _, _, _ => Stuck
   end.
 
@@ -159,6 +164,8 @@ Fixpoint eval (ft : fntab) (fuel : nat) (en : env) (e : expr) {struct fuel} : ou
           | "eq", [VPtr x _; VN y] => Ret (VB (x =? y))   (* ptr::eq(reference, raw pointer): by address *)
           | "from_size_align", [VN s; VN a] =>        (* Layout::from_size_align: Ok(layout) iff the layout is valid *)
               Ret (if layout_ok s a then VSome (VRec [("size", VN s); ("align", VN a)]) else VNone)
+          | "from_raw_parts_mut", [VN p; VN n] =>          (* slice::from_raw_parts_mut: a slice is its pointer and its length *)
+              Ret (VRec [("as_mut_ptr", VN p); ("len", VN n)])
           | "from_size_align_unchecked", [VN s; VN a] =>   (* no validity test: the caller vouches for it *)
               Ret (VRec [("size", VN s); ("align", VN a)])
           | _, _ => Stuck
